@@ -117,6 +117,8 @@ pub struct ChunkOut {
     pub failures: Vec<Failure>,
     pub samples: Vec<J>,
     pub pinpoint: bool,
+    /// structural attributes of the pattern currently explored (triage aid)
+    pub shape: String,
 }
 
 impl ChunkOut {
@@ -151,6 +153,9 @@ impl ChunkOut {
         ]);
         if !note.is_empty() {
             d.push("note", J::s(note));
+        }
+        if !self.shape.is_empty() {
+            d.push("shape", J::s(&self.shape));
         }
         self.failures.push(Failure {
             key: case.key(check, kind),
